@@ -56,6 +56,9 @@ TRAVERSE_BOTH = {'chain': 'a.chain(b): all of a, then all of b'}
 # adaptors with a closure: transparent iff the closure only projects its argument (fields, as_mut, …, no branch):
 # then `filter_map(|c| c.function.as_mut())` drops exactly the elements whose Option on the path is None ≡ `if let Some(f) = c.function.as_mut()`
 CLOSURE_PROJECTING = {'filter_map': 'keeps the Some payloads', 'map': 'one to one', 'flat_map': 'all items of the projected Option/collection'}
+# the same on an Option instead of an iterator ("combinator instead of nested if-let"): `o.as_mut().and_then(|c| c.function.as_mut())`
+# ≡ `if let Some(c) = o.as_mut() { if let Some(f) = c.function.as_mut() {..} }`: None (at either level) = nothing to rewrite
+OPTION_PROJECTING = {'and_then': 'Option<T> -> Option<U> through a projection returning an Option', 'map': 'Option<T> -> Option<U> through a projection'}
 # projections that are not part of the message schema
 def _schema_field(adt):
     return not (adt == 'tuple' or adt.endswith('Option::Some') or adt.endswith('ControlFlow::Continue') or adt.endswith('Result::Ok'))
@@ -136,6 +139,14 @@ def trace_place(F, b, pl, depth=0):
 def _closure_projection(F, b, op):
     """Route inside the closure given by operand `op` from its returned value back to its argument, if the
     closure does nothing but project (no branch, no loop, only TRAVERSE calls); else None"""
+    def fn_item(o):
+        # a path to a function instead of a closure: `.and_then(Option::as_mut)`, `.map(Option::as_mut)`
+        nm = (o.get('fnp') or o.get('fn') or '') if o['k'] == 'const' else ''
+        it = T.strip_generics_tail(nm).split('::')[-1] if nm else None
+        if it in TRAVERSE:
+            r = Route(root=2); r.calls.append(it); return r
+        return None
+    if op['k'] == 'const': return fn_item(op)
     if op['k'] not in ('copy', 'move') or op['pl']['p']: return None
     l = op['pl']['l']
     for _ in range(6):
@@ -143,6 +154,7 @@ def _closure_projection(F, b, op):
         if len(d) != 1 or d[0][0] != 'stmt': return None
         rv = d[0][2]['rv']
         if rv['k'] == 'use' and rv['ops'][0]['k'] in ('copy', 'move') and not rv['ops'][0]['pl']['p']: l = rv['ops'][0]['pl']['l']; continue
+        if rv['k'] == 'use' and rv['ops'][0]['k'] == 'const': return fn_item(rv['ops'][0])
         break
     if rv['k'] != 'agg' or not rv['adt'].startswith('closure:'): return None
     cb = F.bodies.get(rv['adt'][8:])
@@ -163,6 +175,7 @@ def trace_local(F, b, l, depth=0):
         rv = d['rv']
         if rv['k'] == 'use' and rv['ops'][0]['k'] in ('copy', 'move'): return trace_place(F, b, rv['ops'][0]['pl'], depth + 1)
         if rv['k'] == 'ref': return trace_place(F, b, rv['pl'], depth + 1)
+        if rv['k'] == 'agg' and rv['adt'].endswith('Option::Some') and len(rv['ops']) == 1: return trace_operand(F, b, rv['ops'][0], depth + 1)      # Some(x): x is the payload read back later
         return [Route(unknown=['_%d is computed (%s)' % (l, rv['k'])])]
     c = _call_at(b, bi)
     item = c.item; tr = c.trait or ''
@@ -178,7 +191,7 @@ def trace_local(F, b, l, depth=0):
         rs = trace_operand(F, b, c.args[0], depth + 1) + trace_operand(F, b, c.args[1], depth + 1)
         for r in rs: r.calls.append(item)
         return rs
-    if item in CLOSURE_PROJECTING and tr.endswith('Iterator') and len(c.args) == 2:
+    if ((item in CLOSURE_PROJECTING and tr.endswith('Iterator')) or (item in OPTION_PROJECTING and 'Option::<' in c.name)) and len(c.args) == 2:
         rs = trace_operand(F, b, c.args[0], depth + 1)
         pr = _closure_projection(F, b, c.args[1])
         for r in rs:
@@ -198,27 +211,72 @@ def _ok_exits(b):
     return b.strict_ok_exits()
 
 
-def _errflow(b, local, depth=0):
-    """T.errflow, plus: the `?` inside an inlined helper turns the error into the helper's own Result (a local, not _0);
-    what matters then is how the caller consumes *that* value (`helper(..)?`, `return helper(..)`)"""
-    res = T.errflow(b, local)
-    if depth > 4 or not any(k == 'bad' and 'Break arm' in h for k, h in res): return res
+def _variant_tests(b, l, err_variant):
+    """discriminant tests on the whole local l: (switch_bb, target of the other variants, target of variant `err_variant`)"""
+    out = []
+    for kind, bi, st in b.uses.get(l, ()):
+        if kind == 'stmt' and st['rv']['k'] == 'discr' and st['rv']['pl'] == {'l': l, 'p': []}:
+            for k3, b3, sw in b.uses.get(st['dst']['l'], ()):
+                if k3 == 'switch':
+                    m = {v: t for v, t in sw['ts']}
+                    out.append((b3, m.get(1 - err_variant, sw['else']), m.get(err_variant, sw['else'])))
+    return out
+
+
+def _err_path_returns_err(b, start):
+    """Follow the control path that starts in the Break arm of a `?` for as long as it is determined by the error value itself:
+    the residual is converted (from_residual) into a local, possibly wrapped / moved, possibly consumed by another `?`
+    (inlined helper `h(..)?`, spliced closure of try_for_each / collect::<Result<_>>) whose Break arm is then the only
+    continuation, until the function returns.  True iff _0 then holds (a conversion of) that error."""
+    errs = set(); branched = {}; discr_of = {}; x = start; ret_err = False
+    def is_err(o): return o['k'] in ('copy', 'move') and o['pl']['l'] in errs
+    for _ in range(400):
+        blk = b.blocks[x]
+        for st in blk['st']:
+            if 'dst' not in st: continue
+            rv = st['rv']; d = st['dst']
+            if rv['k'] in ('use', 'agg') and any(is_err(o) for o in rv.get('ops', [])) and not d['p']:
+                errs.add(d['l'])
+                if d['l'] == 0: ret_err = True
+            elif rv['k'] == 'discr' and rv['pl']['l'] in branched and not rv['pl']['p'] and not d['p']: discr_of[d['l']] = rv['pl']['l']
+            elif not d['p'] and d['l'] in errs: errs.discard(d['l'])
+        t = blk['term']; k = t['k']
+        if k == 'return': return ret_err
+        if k == 'call':
+            nm = t['r'] or t['f']
+            if t['t'] < 0: return False
+            if 'from_residual' in nm and not t['dst']['p']:
+                errs.add(t['dst']['l'])
+                if t['dst']['l'] == 0: ret_err = True
+            elif T.TRY_BRANCH.search(nm) and t['args'] and is_err(t['args'][0]) and not t['dst']['p']: branched[t['dst']['l']] = True
+            x = t['t']
+        elif k in ('goto', 'drop', 'assert'): x = t['t']
+        elif k == 'switch':
+            dl = t['d']['pl']['l'] if t['d']['k'] in ('copy', 'move') else None
+            if dl in discr_of:
+                m = {v: tg for v, tg in t['ts']}; x = m.get(1, t['else'])            # the value is an error: Break
+            else:
+                r = b.reach([y for y in b.succ(x) if not b.blocks[y]['cleanup']])
+                return ret_err and not (r & _ok_exits(b))                            # (drop flags etc.) nothing behind it may turn it into a success
+        else: return False
+    return False
+
+
+def _errflow(b, local):
+    """T.errflow with the discriminant of the error variant chosen by type, plus `?` whose Break arm does not return directly"""
+    nv = 1 if b.locals[local].lstrip().startswith('std::result::Result') else 0
+    res = T.errflow(b, local, none_variant=nv)
+    if any(k == 'bad' and 'side of match' in h for k, h in res) and len(_whole_defs(b, local)) == 1:
+        # several reads of the discriminant (`if let Err(e) = r { return Err(e) }` + the drop elaboration's own reads later on): a test
+        # that can only be reached through the success side of an earlier test of the same value cannot take its error side
+        sw = [(sb, nn) for sb, some, nn in _variant_tests(b, local, nv)]
+        live = [(sb, nn) for sb, nn in sw if not any(s1 != sb and b.dominates(s1, sb) and sb not in b.reach([n1]) for s1, n1 in sw)]
+        if live and not any(b.reach([nn]) & _ok_exits(b) for sb, nn in live):
+            res = [(k, h) if not (k == 'bad' and 'side of match' in h) else ('ok', 'match: error side of the deciding test reaches only Err-exits') for k, h in res]
+    if not any(k == 'bad' and 'Break arm' in h for k, h in res): return res
     arms = T.try_arms(b, local)
-    if not arms: return res
-    x = arms[1]; fr = None
-    for _ in range(8):
-        c = _call_at(b, x)
-        if c is not None and 'from_residual' in c.name: fr = c; break
-        s = [y for y in b.succ(x) if not b.blocks[y]['cleanup']]
-        if len(s) != 1: break
-        x = s[0]
-    if fr is None or fr.dst['p'] or fr.dst['l'] == 0 or fr.target < 0: return res
-    d = fr.dst['l']
-    consumers = {bi for kind, bi, u in b.uses.get(d, ()) if kind == 'call' and T.TRY_BRANCH.search(u.name)}
-    consumers |= {bi for kind, bi, u in b.uses.get(d, ()) if kind == 'stmt' and u['dst'] == {'l': 0, 'p': []} and u['rv']['k'] == 'use'}
-    if not consumers or not T.must_pass(b, fr.target, set(b.return_blocks()), consumers): return res
-    sub = _errflow(b, d, depth + 1)
-    return [(k, h) for k, h in res if not (k == 'bad' and 'Break arm' in h)] + [(k, '? of an inlined helper -> ' + h) for k, h in sub]
+    if not arms or not _err_path_returns_err(b, arms[1]): return res
+    return [(k, h) if not (k == 'bad' and 'Break arm' in h) else ('ok', '? (error carried to the return through an inlined body)') for k, h in res]
 
 
 def _errflow_calls(ctx, rule, b, calls, what):
@@ -231,19 +289,23 @@ def _errflow_calls(ctx, rule, b, calls, what):
 
 # ------------------------------------------------------------------------------------------------ C04.instance
 def _written_back(ctx, b, c):
-    """the Continue/Ok payload of call c's result is stored through the reference the receiver was read from:
-       `*f = f.substitute(..)?`  ≡  `let g = f.substitute(..)?; *f = g`  ≡  `*f = match f.substitute(..) { Ok(g) => g, Err(e) => return Err(e) }`"""
+    """the Continue/Ok payload of call c's result is stored where the receiver was read from:
+       `*f = f.substitute(..)?`  ≡  `let g = f.substitute(..)?; *f = g`  ≡  `*f = match f.substitute(..) { Ok(g) => g, Err(e) => return Err(e) }`
+       ≡ by value into the Option that holds it: `c.function = Some(f.substitute(..)?)`, `self.objective = Some(..)`"""
     rf, rroot, _ = T.access_path(b, c.args[0], transparent=T.TRANSPARENT_NOCLONE)
     rf = [x for x in rf if _schema_field(x[0])]
     hits = []
     for bi, st in b.stmts():
-        d = st['dst']
-        if not d['p'] or d['p'][0] != '*' or st['rv']['k'] != 'use': continue
-        s = ctx.S.slice_operand(b, st['rv']['ops'][0])
+        d = st['dst']; rv = st['rv']
+        if not d['p']: continue
+        by_ref = d['p'][0] == '*' and not fields_of_place(d) and rv['k'] == 'use'
+        by_val = bool(fields_of_place(d)) and ((rv['k'] == 'agg' and rv['adt'].endswith('Option::Some')) or rv['k'] == 'use')
+        if not (by_ref or by_val) or not rv.get('ops'): continue
+        s = ctx.S.slice_operand(b, rv['ops'][0])
         if c not in s.call_objs: continue
         wf, wroot, _ = T.access_path(b, {'k': 'copy', 'pl': d}, transparent=T.TRANSPARENT_NOCLONE)
         wf = [x for x in wf if _schema_field(x[0])]
-        if wroot == rroot and wf == rf: hits.append(bi)
+        if wroot == rroot and wf == rf and (by_ref or bool(wf)): hits.append(bi)
     return hits
 
 
@@ -361,6 +423,12 @@ def instance_rules(ctx):
 # normal form of the one function it needs in which such a call is replaced by the crate's impl *before* loops are desugared, so that
 # `terms.map(f).sum()` is the same explicit loop as `let mut out = zero; for t in terms { out = out + f(t) }`.
 FOLD_TRAITS = {'sum': 'std::iter::Sum', 'product': 'std::iter::Product'}
+# The same private normal form turns the Option combinators that *consume* an Option with closures / default values into the
+# `match` they abbreviate ("combinator instead of match"), closure bodies spliced:
+#   o.unwrap_or_else(d) ≡ match o { Some(x) => x, None => d() }        o.unwrap_or(v) ≡ match o { Some(x) => x, None => v }
+#   o.map_or_else(d, f) ≡ match o { Some(x) => f(x), None => d() }     o.map_or(v, f) ≡ match o { Some(x) => f(x), None => v }
+# so that `replacements.get(id).cloned().unwrap_or_else(|| x_id)` is the same two-armed test as `if let Some(r) = replacements.get(id)`.
+OPTION_CONSUMERS = {'unwrap_or_else': (None, 1, None), 'unwrap_or': (1, None, None), 'map_or_else': (None, 1, 2), 'map_or': (1, None, 2)}   # item -> (default value arg, default closure arg, map closure arg)
 
 
 class _FoldNormalizer(NZ.Normalizer):
@@ -369,6 +437,7 @@ class _FoldNormalizer(NZ.Normalizer):
         names = set(impls.values())
         super().__init__(raw, (known or set()) - names, True)
         self.pre = NZ.Normalizer(raw, (known or set()) - names, False)
+        self.touched = 0
 
     def body(self, name):
         if name in self.impls.values(): return self.pre.body(name)       # spliced with its fold still a call: the caller's adaptor chain is below it
@@ -378,13 +447,51 @@ class _FoldNormalizer(NZ.Normalizer):
         hit = [bi for bi, blk in enumerate(d['blocks']) if self._impl_of(blk['term']) is not None]
         if hit:
             import copy
+            self.touched += 1
             d = copy.deepcopy(d)
             for bi in hit:
                 t = d['blocks'][bi]['term']; nm = self._impl_of(t)
                 ty = (t.get('ga') or ['?'])[-1]
                 t['f'] = t['r'] = t['fp'] = t['rp'] = nm
                 t['ri'] = {'trait': FOLD_TRAITS[t['ri']['item']], 'targs': [ty], 'self': ty, 'item': t['ri']['item']}
-        return super()._normalize(d)
+        d = super()._normalize(d)
+        if d.get('kind') == 'promoted': return d
+        rw = NZ.Rewriter(d); rw.promoted_of = self._promoted_of
+        for bi in range(len(rw.blocks)):
+            try:
+                self._desugar_option_consumer(rw, bi)
+            except Exception:
+                pass
+        if rw.changed:
+            self.touched += 1
+            return rw.d
+        return d
+
+    def _desugar_option_consumer(self, rw, bi):
+        blk = rw.blocks[bi]; t = blk['term']
+        if blk['cleanup'] or t['k'] != 'call' or t.get('synthetic') or t['t'] < 0: return
+        item = (t.get('ri') or {}).get('item')
+        if item not in OPTION_CONSUMERS or 'Option::<' not in (t['r'] or t['f']): return
+        vi, di, fi = OPTION_CONSUMERS[item]
+        o = t['args'][0]
+        if o['k'] not in ('copy', 'move') or o['pl']['p']: return
+        dcl = self._closure_of(rw, t['args'][di]) if di is not None else None
+        fcl = self._closure_of(rw, t['args'][fi]) if fi is not None else None
+        if (di is not None and dcl is None) or (fi is not None and fcl is None): return
+        span = t.get('span'); line = (span or {}).get('lo', 0); dst = t['dst']; cont = t['t']; ol = o['pl']['l']
+        dl = rw.new_local('isize'); some = rw.new_block(); none = rw.new_block(); un = rw.new_block()
+        env = NZ._const('()', 'env')
+        if fcl is not None:
+            rw.goto(some, rw.splice(fcl[0], [env, NZ._mv(ol, NZ.SOME0)], dst, cont, span, captures=fcl[1]))
+        else:
+            rw.blocks[some]['st'].append(NZ._use(dst, NZ._mv(ol, NZ.SOME0), line)); rw.goto(some, cont)
+        if dcl is not None:
+            rw.goto(none, rw.splice(dcl[0], [env], dst, cont, span, captures=dcl[1]))
+        else:
+            rw.blocks[none]['st'].append(NZ._use(dst, t['args'][vi], line)); rw.goto(none, cont)
+        blk['st'].append(NZ._discr(dl, NZ._pl(ol), line))
+        blk['term'] = {'k': 'switch', 'd': NZ._mv(dl), 'ts': [[0, none], [1, some]], 'else': un}
+        rw.changed = True
 
     def _impl_of(self, t):
         if t['k'] != 'call' or t.get('synthetic'): return None
@@ -400,10 +507,6 @@ def _fold_view(ctx, b):
     impls = {}
     for (tr, st, it), bs in raw._by_hdr.items():
         if it in FOLD_TRAITS and tr == FOLD_TRAITS[it] and st and len(bs) == 1: impls[(it, st)] = bs[0].name
-    need = False
-    for c in b.calls:
-        if (c.trait or '') == 'std::iter::Iterator' and c.item in FOLD_TRAITS and c.gargs and (c.item, c.gargs[-1]) in impls and not c.term.get('synthetic'): need = True
-    if not need: return ctx.F, ctx.S, b
     import os
     known = NZ.load_known(os.path.join(os.path.dirname(__file__), 'tables', 'known_fns.json'))
     N = _FoldNormalizer(raw, known, impls)
@@ -411,6 +514,7 @@ def _fold_view(ctx, b):
         d = N.body(b.name)
     except Exception:
         return ctx.F, ctx.S, b
+    if not N.touched: return ctx.F, ctx.S, b                      # nothing of the above in this function: the shared normal form is used
     dicts = [d if n == b.name else x.d for n, x in ctx.F.bodies.items()]
     F2 = Facts(ctx.F.path, parts=(ctx.F.header, dicts, ctx.F.adts, ctx.F.impls, ctx.F.consts))
     F2.raw = raw
@@ -431,6 +535,8 @@ PROBES = {
     'get': 'option',              # match / if let on replacements.get(id): Some(r) = present
     'contains_key': 'bool',       # if replacements.contains_key(id) { .. replacements[id] .. }
 }
+OPTION_SAME = ('cloned', 'copied', 'as_ref', 'as_deref')
+NO_CALLS = re.compile(r'^$')
 # how the replacement is read on the `present` side
 REPLACEMENT_READS = ('get', 'index')
 
@@ -590,7 +696,12 @@ def _id_loop_checks(b, o, i, from_loop_item):
     for c in b.calls:
         if c.bb in i[4] and c.item in PROBES and 'HashMap' in c.name and T.access_path(b, c.args[0])[1] == 2:
             if PROBES[c.item] == 'option':
-                for sb, m, els in T.option_arms(b, c.dst['l']): probes.append((c, m.get(1, els), m.get(0, els)))
+                opts = {c.dst['l']}                  # the Option and what is made of it without changing Some/None: get(id).cloned(), .copied(), .as_ref()
+                for _ in range(4):
+                    for x in b.calls:
+                        if x.item in OPTION_SAME and 'Option::<' in x.name and x.args and T.access_path(b, x.args[0], transparent=NO_CALLS)[1] in opts: opts.add(x.dst['l'])
+                for ol in sorted(opts):
+                    for sb, m, els in T.option_arms(b, ol): probes.append((c, m.get(1, els), m.get(0, els)))
             else:
                 for g in T.guards_from_call(b, c):
                     if g.true_bb is not None and g.false_bb is not None: probes.append((c, g.true_bb, g.false_bb))
@@ -669,6 +780,21 @@ def _taken(b, op):
 
 def _root(b, op, tr=None):
     return T.access_path(b, op, transparent=tr or T.TRANSPARENT_NOCLONE)[1] if op['k'] in ('copy', 'move') else None
+
+
+def _work_root(b, op):
+    """the collection local a TAKE call takes from: through WORK_TRAVERSE calls and `drain(..)` over the full range"""
+    for _ in range(6):
+        r = _root(b, op, WORK_TRAVERSE)
+        ds = _whole_defs(b, r) if r is not None and r > b.argc else []
+        if len(ds) == 1 and ds[0][0] == 'call':
+            t = ds[0][2]; c = _call_at(b, ds[0][1])
+            if c.item == 'drain' and len(t['args']) == 2 and t['args'][0]['k'] in ('copy', 'move'):
+                a = t['args'][1]
+                ty = a.get('ty', '') if a['k'] == 'const' else (b.locals[a['pl']['l']] if a['k'] in ('copy', 'move') and not a['pl']['p'] else '')
+                if 'RangeFull' in ty: op = t['args'][0]; continue             # v.drain(..): every entry once
+        return r
+    return None
 
 
 def _transfers(b, src, dst):
@@ -808,7 +934,7 @@ def _step_checks(b, ev, hdrs):
     t, tf = tk
     step = T.loop_of_next(b, t)
     if step is None: return res
-    res.update(take=t, step=step, W=_root(b, t.args[0], WORK_TRAVERSE), popped=(tf[-1:] == ['1']))
+    res.update(take=t, step=step, W=_work_root(b, t.args[0]), popped=(tf[-1:] == ['1']))
     res['state'] = T.strip_wrappers(T.expr(b, ev.args[1])) == ('place', 2, [])
     stop = hdrs | {t.bb}
     for sb, m, els in T.option_arms(b, ev.dst['l']):
